@@ -11,7 +11,7 @@ CONSTANTS MaxCalls,      \* budget of tag/view API calls
           Invalid,       \* TRUE: also issue calls that must be rejected (C11)
           Crashes,       \* TRUE: also take crash copies of the data directory (C12; no effect on the model state)
           Restarts,      \* TRUE: the process may be killed between two steps and restarted (C12; spends a call)
-          Extra          \* subset of {"rename", "color", "settings"}: further API calls to issue
+          Extra          \* subset of {"rename", "color", "settings", "convdir"}: further calls / environment events to issue
 
 VARIABLES clock, calls,
           lost,          \* history: captures that were only queued when the process was killed (never imported afterwards)
@@ -78,6 +78,7 @@ ApiEvents ==
     \cup (IF ConvNames = {} THEN {} ELSE
              {EvC("SetConverters", n, cs, "", 0) : n \in TagNames, cs \in ConvLists}
              \cup {EvC("ConvReset", "", <<c>>, "", 0) : c \in ConvNames}
+             \cup (IF "convdir" \in Extra THEN {EvC(a, "", <<c>>, "", 0) : a \in {"ConvRemove", "ConvAdd"}, c \in ConvNames} ELSE {})
              \cup {EvC("ViewConvert", "", <<c>>, v, s) : c \in ConvNames, v \in DOMAIN views, s \in 0 .. 2})
 
 \* file names: an import output carries its creation time, a merge output the name of its newest input plus ".m0"
@@ -144,6 +145,8 @@ Step(e) ==
       [] e.a = "SetConfig"     -> Budget /\ settings.cfg # (e.k = 1) /\ SetConfig(e.k = 1) /\ Spend
       [] e.a = "SetConverters" -> Call(SetConvOK(e.name, Range(e.convs)), SetConverters(e.name, Range(e.convs)))
       [] e.a = "ConvReset"     -> Budget /\ ConvReset(e.convs[1]) /\ Spend
+      [] e.a = "ConvRemove"    -> Budget /\ ConvRemove(e.convs[1]) /\ Spend
+      [] e.a = "ConvAdd"       -> Budget /\ ConvAdd(e.convs[1]) /\ Spend
       [] e.a = "ViewConvert"   -> Budget /\ ViewConvert(e.v, e.k, e.convs[1]) /\ Spend
 
 MCInit == Init /\ clock = 0 /\ calls = 0 /\ lost = {} /\ fkey = <<>> /\ epoch = 0
